@@ -593,6 +593,10 @@ func (w *Worker) RunJob(job Job) (res *JobResult) {
 		in.OpenKnown[id] = true
 	}
 	in.WantCoverModels = job.CoverModels
+	in.Deadline = time.Now().Add(20 * time.Minute)
+	if w.S.Cfg.Tier == "thorough" {
+		in.Deadline = time.Now().Add(3 * time.Hour)
+	}
 	in.MaxPaths = 4096
 	if job.MaxPaths > 0 {
 		in.MaxPaths = job.MaxPaths
